@@ -27,7 +27,9 @@ CONTEXTS = [([], [3, 14]), ([8], [3, 9, 14]), ([12], [3, 13, 14]), ([10], [1, 3,
 
 
 def context_programs(nalpha):
-    return [tuple(pre + [c] + post) for pre, post in CONTEXTS for c in range(1, nalpha + 1)]
+    # the continuation once as it is and once led by a symbol written from a string and from a token (the calls that
+    # resolve text: a writer must not let them overwrite the error it holds)
+    return [tuple(pre + [c] + lead + post) for pre, post in CONTEXTS for c in range(1, nalpha + 1) for lead in ([], [24, 4])]
 
 
 def run(tier):
